@@ -208,7 +208,7 @@ def c12_applier(ctx):
     kt = kts_for(ctx, 1)[0]
     ov = {"MaxLen": 3 if ctx.tier == "quick" else 4, "MaxDev": 1, "DefKT": q(kt)}
     only = "input-mutated,error-with-state,panic"
-    _, summ = ctx.tlc_pipe("MC_Applier.tla", "MC_Applier.cfg", ["applier-replay", "-td", "1", "-only", only],
+    _, summ = ctx.tlc_pipe("MC_Applier.tla", "MC_Applier.cfg", ["applier-replay", "-td", "1", "-only", only, "-private-states"],
                            overrides=ov, label="applier: input digests before/after on every edge")
     return summ
 
@@ -311,7 +311,7 @@ def c12_composer(ctx):
         if ctx.tier == "thorough" and "KIds" in ov:
             ov = dict(ov)
             ov["MaxLen"] = 3
-        ctx.tlc_pipe("MC_Composer.tla", "MC_Composer.cfg", ["composer-replay", "-only", only], overrides=ov,
+        ctx.tlc_pipe("MC_Composer.tla", "MC_Composer.cfg", ["composer-replay", "-only", only, "-private-states"], overrides=ov,
                      label="composer: input digests before/after, " + label, timeout=3000)
 
 
@@ -375,6 +375,10 @@ def c11(ctx):
     pairing = q("benign") if ctx.tier == "quick" else q("all")
     _, summ = ctx.tlc_pipe("MC_JsonPatchGuard.tla", "MC_JsonPatchGuard.cfg", ["guard-replay"],
                            overrides={"Pairing": pairing}, label="RFC 6902 lists, pairing " + pairing, timeout=3000)
+    if any(m.get("kind") == "model-binding" for m in ctx.violations):
+        raise Infra("the may-alter classification of JsonPatchGuard.tla disagrees with the real library on a list "
+                    "that validation refuses: the model, not the code, is wrong: %s" %
+                    [m.get("key") for m in ctx.violations if m.get("kind") == "model-binding"][:3])
     if summ["extra"]["accepted_by_validator"] == 0 or summ["extra"]["altering_lists_stopped_by_validation"] == 0:
         raise Infra("vacuous: no list accepted / no altering list stopped")
     ctx.tlc_check("MC_JsonPatchGuard.tla", "MC_JsonPatchGuard_neg.cfg", expect_violation=True,
@@ -512,6 +516,44 @@ def c04(ctx):
     ctx.exhaustive = True
 
 
+# ---------------------------------------------------------------------------------------------
+# Client family: C08
+
+def c08(ctx):
+    ctx.rule = ("Client.tla (over Composer.tla's documents and per-action semantics): lifecycles create -> update* -> "
+                "recover -> update* -> deactivate with key rotation; create / recover ask for one of 11 documents "
+                "(0-3 keys with 1-3 purposes, 0-2 services, 0-2 also-known-as URIs), updates add / replace / remove "
+                "keys, services and URIs singly and all at once, anchor origin absent / present, anchoring window "
+                "none / in / from-only / late, plus the five inputs the builders must refuse. TLC checks "
+                "FreshCommitments / DeactivatedShape / UniqueDocIds and prints every edge with the state the caller "
+                "expects. Each step is built at two entry levels (client.New*Request with the library signers; "
+                "sidetree.Client with a capturing request function and api.Signer), must be accepted by Parser.Parse "
+                "under the matching protocol, its anchored form must be the reference JCS of the request and keep "
+                "suffix / type / anchor origin, original and anchored bytes must apply to the same state, and that "
+                "state (document by content, commitments of the next keys, anchor origin, flags) must be the "
+                "specification's.")
+    ctx.assumptions = APPLIER_ASSUME[:1] + [
+        "one update does not add and remove the same id (what the caller asked for would be ambiguous)",
+        "the empty document is not among the options (it yields a request without patches, which is not one of the "
+        "three kinds of input the statement requires the builders to refuse)",
+        "the Sidetree client has no anchoring-window option: windowed steps run at the builder level only"]
+    kts = kts_for(ctx, 2)
+    runs = [(kts[0], kts[1], 256, 3)] if ctx.tier == "quick" else \
+        [(a, b, h, 4) for (a, b, h) in [("ed", "p256", 256), ("p256", "k1", 512), ("p384", "p521", 256), ("k1", "ed", 512), ("p521", "p384", 512)]]
+    first = None
+    for ukt, rkt, h, ml in runs:
+        _, summ = ctx.tlc_pipe("MC_Client.tla", "MC_Client.cfg", ["client-replay", "-ukt", ukt, "-rkt", rkt, "-h", str(h)],
+                               overrides={"MaxLen": ml}, timeout=3000,
+                               label="lifecycles <= %d steps, update keys %s, recovery keys %s, SHA-%d" % (ml, ukt, rkt, h))
+        first = first or summ["_first_edge"]
+
+    def wrong(rec):
+        rec["post"]["upd"] = rec["post"]["upd"] + 7
+        rec["step"]["refused"] = ""
+
+    ctx.negctl_replay(["client-replay"], first, wrong)
+
+
 def replay(path):
     """re-execute exactly the case of a replay file against the current tree"""
     m = json.load(open(path))
@@ -578,6 +620,7 @@ CHECKS = {
     "C04": c04,
     "C06": c06,
     "C07": c07,
+    "C08": c08,
     "C09": c09,
     "C10": c10,
     "C11": c11,
